@@ -47,7 +47,7 @@ var (
 	advDouble   = []string{"foo__bar", "ns__thing", "a__b", "my__Field", "x__"}
 	advTypeSnk  = []string{"blog_post", "user_account", "line_item", "Order_Line", "api_key", "_Meta", "Ns__Thing", "xml_HTTP_doc"}
 	advTypePfx  = []string{"Admin", "Super", "Sub", "Base", "Meta", "Box", "My"}
-	advEnumVal  = []string{"type", "func", "default", "_UNDER", "A_B", "AB", "a_b", "Active", "active", "__x"[1:], "go", "X_1", "x1"}
+	advEnumVal  = []string{"type", "func", "default", "_UNDER", "A_B", "AB", "a_b", "Active", "active", "_x2", "go", "X_1", "x1"}
 	advPkgNames = []string{"graphql", "json", "context", "sup", "fmt", "errors"}
 
 	goKeywords = []string{"break", "default", "func", "interface", "select", "case", "defer", "go", "map", "struct",
@@ -140,7 +140,8 @@ func (g *pg) adv() bool {
 	return g.r.Chance(1, 14)
 }
 
-// uniq makes base unique w.r.t. the given sets (by norm) and ok().
+// uniq makes base unique w.r.t. ok().  It tries suffixes first, then
+// prefixes (for predicates that forbid extending an existing name).
 func (g *pg) uniq(base string, ok func(string) bool) string {
 	if ok(base) {
 		return base
@@ -150,9 +151,20 @@ func (g *pg) uniq(base string, ok func(string) bool) string {
 			return c
 		}
 	}
+	for _, px := range []string{"Alt", "Other", "X", "Second", "Q"} {
+		if c := px + upperFirst(base); ok(c) {
+			return c
+		}
+	}
 	for i := 6; ; i++ {
 		if c := base + itoa(i); ok(c) {
 			return c
+		}
+		if c := "Z" + itoa(i) + upperFirst(base); ok(c) {
+			return c
+		}
+		if i > 10000 {
+			panic("gen: cannot make name unique: " + base)
 		}
 	}
 }
